@@ -395,6 +395,14 @@ def main():
                    cases_per_component=comps, oracle_findings=len(fnd), known_findings_observed=[k.split(":")[1].strip() for k in known_lines],
                    correspondence_wall_s=round(corr.get("wall", 0), 1), correspondence_cached=corr.get("cached", False),
                    exhaustive=False)
+    # a *_refuted theorem says the faithful model violates the property on the witness in its statement: it must be recorded as
+    # an open known finding of this property, otherwise it is a violation in its own right (the witness is the replay)
+    recorded = set(t for e in known if e.get("property") == pid and e.get("status") == "open" for t in e.get("refuted_theorems", []))
+    for t in proof["refuted"]:
+        if t not in recorded:
+            violations.append(("", dict(property=pid, theorem_or_component="Props/%s.v: %s" % (pid, t),
+                                        observed="the model is proved to violate the property on the witness named in this theorem, and no open known finding records it",
+                                        case="see the theorem's statement and proof (exists ... by vm_compute) in coq/Proofs/Refuted.v")))
     if not proof["ok"]:
         violations.append(("no-failing-input-found" if not any(v[0] == "" for v in violations) else "",
                            dict(property=pid, theorem_or_component="proof layer: " + "; ".join(proof["detail"])[:800])))
